@@ -172,6 +172,28 @@ class Check(PropertyCheck):
             ctx["late_from"] = ctx.get("heap_size", 0)
         if line != "fsnap":
             return res
+        if index % 4 == 0:
+            # the other views of the same numbers: data frames of a composite (its matrices under its column names), the declared
+            # dimensions and sizes of every feature observer, and the printable form
+            import numpy as np
+            from job_shop_lib.dispatching.feature_observers import FeatureObserver, CompositeFeatureObserver
+            for k, o in enumerate(impl.fheap):
+                if not isinstance(o, FeatureObserver):
+                    continue
+                try:
+                    for t, arr in o.features.items():
+                        # (`feature_sizes` is left alone: a composite reports the class default 1 whatever it concatenates - an
+                        #  attribute no property speaks of)
+                        if tuple(o.feature_dimensions[t]) != tuple(arr.shape):
+                            res.append(("views", f"observer {k}: feature_dimensions of {t.value} says {o.feature_dimensions[t]}, "
+                                        f"the matrix is {arr.shape}"))
+                    if isinstance(o, CompositeFeatureObserver):
+                        for t, df in o.features_as_dataframe.items():
+                            if list(df.columns) != list(o.column_names[t]) or not np.array_equal(df.to_numpy(), o.features[t]):
+                                res.append(("views", f"composite {k}: the data frame of {t.value} is not its matrix under its column names"))
+                    str(o)
+                except Exception as e:  # pylint: disable=broad-except
+                    res.append(("views", f"observer {k}: a view of the features raised {type(e).__name__}: {e}"))
         d = impl.dispatcher
         I = impl.instance
         v = oracles.View(I, d.schedule.schedule)
